@@ -98,13 +98,13 @@ Definition merge_attr (o s : node) : node :=
 Definition update_imports (o s : list (string * string)) : list (string * string) :=
   fold_left (fun acc p => assign (fst p) (snd p) acc) s o.
 
-(* member.overloads = overloads.  On an object of any kind this is a plain attribute assignment (a Class or
-   Module loses its buffer dict, an Attribute grows an attribute); on an alias whose target is not loaded the
-   property setter goes through final_target and raises AliasResolutionError. *)
-Definition set_ov (t : tree) (ovs : list string) : result tree :=
+(* if member.is_function: member.overloads = overloads   (inside suppress(KeyError, AliasResolutionError, CyclicAliasError)).
+   A function, possibly reached through an alias to a loaded object, takes the list; a member of another kind is left
+   alone; on an alias whose target is not loaded is_function raises AliasResolutionError, which is suppressed. *)
+Definition set_ov (t : tree) (ovs : list string) : tree :=
   match final t with
-  | Obj d ms => Ok (retarget t (Obj (with_ov d (OvList ovs)) ms))
-  | _ => Err EAlias
+  | Obj d ms => if kind_eqb (nkind d) KFun then retarget t (Obj (with_ov d (OvList ovs)) ms) else t
+  | _ => t
   end.
 
 (* stubs.overloads.items() *)
@@ -115,22 +115,17 @@ Definition buffer_items (o : ovf) : result (list (string * list string)) :=
    (the `with suppress` of _merge_stubs_members, set_member) go on with that partial state. *)
 Inductive outcome := Done (t : tree) | Raised (e : err) (partial : tree).
 
-(* _merge_stubs_overloads, on the members of obj (the deletion from stubs.overloads is in [residual]).
-   Returns the members reached and the exception, if any. *)
-Fixpoint apply_buffer (buf : list (string * list string)) (ms : list (string * tree)) : list (string * tree) * option err :=
+(* _merge_stubs_overloads, on the members of obj (the deletion from stubs.overloads is in [residual]) *)
+Fixpoint apply_buffer (buf : list (string * list string)) (ms : list (string * tree)) : list (string * tree) :=
   match buf with
-  | [] => (ms, None)
+  | [] => ms
   | (fn, ovs) :: r =>
       match ovs with
       | [] => apply_buffer r ms
       | _ :: _ =>
           match lookup fn ms with
           | None => apply_buffer r ms                    (* KeyError suppressed *)
-          | Some m =>
-              match set_ov m ovs with
-              | Ok m' => apply_buffer r (assign fn m' ms)
-              | Err e => (ms, Some e)                    (* only KeyError is suppressed *)
-              end
+          | Some m => apply_buffer r (assign fn (set_ov m ovs) ms)
           end
       end
   end.
@@ -141,20 +136,17 @@ Definition set_rt (b : bool) (t : tree) : tree :=
 Definition is_container (k : kind) : bool := match k with KMod | KCls => true | _ => false end.
 
 Section Members.
-  (* the recursive call _merge_module_stubs / _merge_class_stubs (via-alias flag, stub member, target object) *)
-  Variable rec : bool -> tree -> tree -> outcome.
-  (* obj is reached through an alias: obj.members is then a dict built afresh on every access
-     (models.py Alias.members), so obj.set_member(name, stub_member) adds nothing *)
-  Variable via : bool.
+  (* the recursive call _merge_module_stubs / _merge_class_stubs (stub member, target object) *)
+  Variable rec : tree -> tree -> outcome.
 
-  (* the loop of _merge_stubs_members over stubs.members.items(); acc = obj.members *)
+  (* the loop of _merge_stubs_members over stubs.members.items(); acc = obj.members
+     (obj itself is first replaced by its final target when it is an alias, so members are always set on a real object) *)
   Fixpoint merge_members (sl : list (string * tree)) (acc : list (string * tree)) : list (string * tree) * option err :=
     match sl with
     | [] => (acc, None)
     | (n, sm) :: r =>
         match lookup n acc with
-        | None => if via then merge_members r acc
-                  else merge_members r (acc ++ [(n, set_rt false sm)])   (* stub_member.runtime = False; obj.set_member *)
+        | None => merge_members r (acc ++ [(n, set_rt false sm)])       (* stub_member.runtime = False; obj.set_member *)
         | Some om =>
             match sm with
             | Obj smd _ =>
@@ -165,7 +157,7 @@ Section Members.
                       | KFun => merge_members r (assign n (retarget om (Obj (merge_fun omd smd) omms)) acc)
                       | KAttr => merge_members r (assign n (retarget om (Obj (merge_attr omd smd) omms)) acc)
                       | KMod | KCls =>
-                          match rec (via || is_alto om) sm (Obj omd omms) with
+                          match rec sm (Obj omd omms) with
                           | Done t' => merge_members r (assign n (retarget om t') acc)
                           | Raised EAlias p => merge_members r (assign n (retarget om p) acc)   (* with suppress(AliasResolutionError, CyclicAliasError) *)
                           | Raised e p => (assign n (retarget om p) acc, Some e)
@@ -181,21 +173,18 @@ Section Members.
 End Members.
 
 (* _merge_module_stubs(o, s) / _merge_class_stubs(o, s): docstring, overloads, members (imports first) *)
-Fixpoint merge_obj (via : bool) (s o : tree) {struct s} : outcome :=
+Fixpoint merge_obj (s o : tree) {struct s} : outcome :=
   match s, o with
   | Obj sd sms, Obj od oms =>
       let od1 := with_doc od (merge_doc (ndoc od) (ndoc sd)) in
       match buffer_items (nov sd) with
       | Err e => Raised e (Obj od1 oms)
       | Ok buf =>
-          match apply_buffer buf oms with
-          | (oms1, Some e) => Raised e (Obj od1 oms1)
-          | (oms1, None) =>
-              let od2 := with_imp od1 (update_imports (nimp od) (nimp sd)) in
-              match merge_members merge_obj via sms oms1 with
-              | (oms2, Some e) => Raised e (Obj od2 oms2)
-              | (oms2, None) => Done (Obj od2 oms2)
-              end
+          let oms1 := apply_buffer buf oms in
+          let od2 := with_imp od1 (update_imports (nimp od) (nimp sd)) in
+          match merge_members merge_obj sms oms1 with
+          | (oms2, Some e) => Raised e (Obj od2 oms2)
+          | (oms2, None) => Done (Obj od2 oms2)
           end
       end
   | _, _ => Raised EAttr o       (* merge_stubs is only ever given Module objects *)
@@ -212,28 +201,14 @@ Definition merge_stubs (m1 m2 : fmod) : result fmod :=
   match roles m1 m2 with
   | None => Err EValue
   | Some (st, md) =>
-      match merge_obj false (body st) (body md) with
+      match merge_obj (body st) (body md) with
       | Done t => Ok (mkF (is_pyi md) t)
       | Raised e _ => Err e
       end
   end.
 
-(* ---- the stubs object after _merge_*_stubs(o, s) has run (s is mutated too): processed buffer entries are deleted
-   (all of them, or those before the entry that raised), stub-only members carry runtime=False (they are the very
-   objects now sitting in o). ---- *)
-Fixpoint buffer_rest (buf : list (string * list string)) (oms : list (string * tree)) : list (string * list string) :=
-  match buf with
-  | [] => []
-  | (fn, ovs) :: r =>
-      match ovs with
-      | [] => buffer_rest r oms
-      | _ :: _ => match option_map final (lookup fn oms) with
-                  | Some (Obj _ _) | None => buffer_rest r oms
-                  | Some _ => buf
-                  end
-      end
-  end.
-
+(* ---- the stubs object after _merge_*_stubs(o, s) has run (s is mutated too): the buffer entries are deleted,
+   stub-only members carry runtime=False (they are the very objects now sitting in o). ---- *)
 Section Residual.
   Variable rec : tree -> tree -> tree.
   Fixpoint residual_members (sl : list (string * tree)) (oms : list (string * tree)) : list (string * tree) :=
@@ -256,11 +231,7 @@ Fixpoint residual (s o : tree) {struct s} : tree :=
   match s, o with
   | Obj sd sms, Obj od oms =>
       match nov sd with
-      | OvDict b =>
-          match buffer_rest b oms with
-          | [] => Obj (with_ov sd (OvDict [])) (residual_members residual sms oms)
-          | rest => Obj (with_ov sd (OvDict rest)) sms       (* raised in the buffer pass: members not reached *)
-          end
+      | OvDict _ => Obj (with_ov sd (OvDict [])) (residual_members residual sms oms)
       | _ => s
       end
   | _, _ => s
@@ -270,12 +241,13 @@ Fixpoint residual (s o : tree) {struct s} : tree :=
    filepath:  with suppress(AliasResolutionError, CyclicAliasError, BuiltinModuleError):
                   with suppress(ValueError): value = merge_stubs(member, value)
    then members[name] = value.  When the merge raised, value is still the second module - partially merged if it
-   is the runtime one.  Any other exception propagates. ---- *)
+   is the runtime one (since the repair of _merge_stubs_overloads nothing in the model raises it any more; the branch
+   is the code's).  Any other exception propagates. ---- *)
 Definition set_member_module (member value : fmod) : result fmod :=
   match roles member value with
   | None => Ok value
   | Some (st, md) =>
-      match merge_obj false (body st) (body md) with
+      match merge_obj (body st) (body md) with
       | Done t => Ok (mkF (is_pyi md) t)
       | Raised EAlias p => Ok (if is_pyi member then mkF (is_pyi value) p else value)
       | Raised e _ => Err e
@@ -293,68 +265,22 @@ Definition add_members (t : tree) (subs : list (string * tree)) : tree :=
   end.
 
 Definition load_package (top stubs_init : tree) (subs : list (string * tree)) : result tree :=
-  match merge_obj false stubs_init top with
+  match merge_obj stubs_init top with
   | Done top1 =>
-      match merge_obj false (add_members (residual stubs_init top) subs) top1 with
+      match merge_obj (add_members (residual stubs_init top) subs) top1 with
       | Done t => Ok t
       | Raised e _ => Err e
       end
   | Raised EAlias p =>      (* suppressed the first time; the unguarded second merge meets the same entry *)
-      match merge_obj false (add_members (residual stubs_init top) subs) p with
+      match merge_obj (add_members (residual stubs_init top) subs) p with
       | Done t => Ok t
       | Raised e _ => Err e
       end
   | Raised e _ => Err e
   end.
 
-(* ---- known gaps (decidable).  At some scope reached by the merge
-   F1: a non-empty buffer entry of the stubs names a runtime member that is an alias whose target is not loaded
-   F2: ... names a runtime member that is (or is an alias to) an object that is not a function
-   F3: the runtime scope is reached through an alias and the stubs have a member it lacks ---- *)
-Definition hits (p : tree -> bool) (buf : list (string * list string)) (oms : list (string * tree)) : bool :=
-  existsb (fun e => match snd e with
-                    | [] => false
-                    | _ :: _ => match lookup (fst e) oms with Some m => p m | None => false end
-                    end) buf.
-
 Definition is_alias (t : tree) : bool := match t with Al _ _ => true | _ => false end.
-Definition unresolvable (t : tree) : bool := is_alias (final t).
-Definition is_nonfun_obj (t : tree) : bool :=
-  match final t with Obj d _ => negb (kind_eqb (nkind d) KFun) | _ => false end.
 Definition buf_of (d : node) : list (string * list string) := match nov d with OvDict b => b | _ => [] end.
-
-Section Gap.
-  Variable rec : bool -> tree -> tree -> bool.
-  Variable via : bool.
-  Fixpoint gap_members (sl : list (string * tree)) (oms : list (string * tree)) : bool :=
-    match sl with
-    | [] => false
-    | (n, sm) :: r =>
-        (match lookup n oms, sm with
-         | Some om, Obj smd _ =>
-             match final om with
-             | Obj omd omms =>
-                 kind_eqb (nkind omd) (nkind smd) && is_container (nkind omd) && rec (via || is_alto om) sm (Obj omd omms)
-             | _ => false
-             end
-         | _, _ => false
-         end) || gap_members r oms
-    end.
-End Gap.
-
-(* [here via buf sms oms]: is the gap present in this very scope *)
-Fixpoint gap (here : bool -> list (string * list string) -> list (string * tree) -> list (string * tree) -> bool)
-             (via : bool) (s o : tree) {struct s} : bool :=
-  match s, o with
-  | Obj sd sms, Obj od oms => here via (buf_of sd) sms oms || gap_members (gap here) via sms oms
-  | _, _ => false
-  end.
-
-Definition known_gap_F1 (s o : tree) : bool := gap (fun _ buf _ oms => hits unresolvable buf oms) false s o.
-Definition known_gap_F2 (s o : tree) : bool := gap (fun _ buf _ oms => hits is_nonfun_obj buf oms) false s o.
-Definition lacks (sms oms : list (string * tree)) : bool :=
-  existsb (fun p => match lookup (fst p) oms with None => true | Some _ => false end) sms.
-Definition known_gap_F3 (s o : tree) : bool := gap (fun via _ sms oms => via && lacks sms oms) false s o.
 
 (* ---- s-expression interface ---- *)
 Definition dec_kind (s : sexp) : option kind :=
@@ -444,7 +370,7 @@ Definition run_C19 (s : sexp) : sexp :=
   match s with
   | SList [SStr "merge"; st; ob] =>
       match dec_tree st, dec_tree ob with
-      | Some s', Some o' => enc_outcome (merge_obj false s' o')
+      | Some s', Some o' => enc_outcome (merge_obj s' o')
       | _, _ => bad_input
       end
   | SList [SStr "merge_stubs"; a; b] =>
@@ -461,11 +387,6 @@ Definition run_C19 (s : sexp) : sexp :=
       match dec_tree top, dec_tree st, as_list_of dec_named subs with
       | Some t', Some s', Some l' => enc_res enc_tree (load_package t' s' l')
       | _, _, _ => bad_input
-      end
-  | SList [SStr "gaps"; st; ob] =>
-      match dec_tree st, dec_tree ob with
-      | Some s', Some o' => SList [of_bool (known_gap_F1 s' o'); of_bool (known_gap_F2 s' o'); of_bool (known_gap_F3 s' o')]
-      | _, _ => bad_input
       end
   | _ => bad_input
   end.
